@@ -206,6 +206,72 @@ fn fe_scenario(cfg: &Cfg, rng: &mut Rng, case: &str) {
     report::sample(&what.chars().take(24).collect::<String>(), jo! {"endpoint" => "frontend", "scenario" => what});
 }
 
+/// Connection reset in the middle of a descriptor-carrying message: the peer closes while data
+/// the library wrote is still unread in the peer's queue, so after the queued prefix the
+/// library's next read fails with ECONNRESET (a hard error) instead of end-of-stream.
+fn reset_scenario(cfg: &Cfg, rng: &mut Rng, case: &str) {
+    let before = sys::fd_census();
+    // (the frontend-request server keeps its own handle of the peer end, so its peer can only
+    // shut down, never reset: not applicable there)
+    let endpoint = rng.below(2);
+    let nfds = rng.range(1, 8) as usize;
+    let what;
+    {
+        let files: Vec<std::fs::File> = (0..nfds).map(|_| sys::memfd("c09rst", 4096)).collect();
+        let fds: Vec<RawFd> = files.iter().map(|x| x.as_raw_fd()).collect();
+        match endpoint {
+            0 => {
+                let (peer, mut srv, be) = util::raw_server(util::full_script());
+                // a served request whose reply stays unread in the peer's queue
+                let _ = sys::send_all(peer.as_raw_fd(), &spec::msg(spec::fe::GET_FEATURES, F_VERSION1, &[]), &[]);
+                let first = util::catch(|| srv.handle_request());
+                let full = match rng.below(3) {
+                    0 => spec::msg(spec::fe::SET_VRING_KICK, F_VERSION1, &spec::p_u64(1)),
+                    1 => spec::msg(spec::fe::SET_LOG_BASE, F_VERSION1, &spec::p_log(0x1000, 0)),
+                    _ => spec::msg(spec::fe::SET_VRING_CALL, F_VERSION1, &spec::p_u64(0)),
+                };
+                let cut = rng.range(1, full.len() as u64 - 1) as usize;
+                let _ = sys::send_all(peer.as_raw_fd(), &full[..cut], &fds);
+                let unread = sys::inq(peer.as_raw_fd());
+                drop(peer);
+                let r = util::catch(|| srv.handle_request());
+                let res = match &r { Ok(Ok(())) => "Ok".to_string(), Ok(Err(e)) => format!("{e:?}"), Err(_) => "panic".into() };
+                what = format!("backend-server: {cut}/{} bytes of a message + {nfds} descriptors, then reset (peer had {unread} unread bytes, first request {}): {res}", full.len(), if matches!(first, Ok(Ok(()))) { "served" } else { "failed" });
+                if res.contains("ConnectionReset") { report::count("reset.certified_econnreset", 1); }
+                drop(srv);
+                let mut g = be.lock().unwrap();
+                g.held.clear();
+                g.backend = None;
+                drop(g);
+            }
+            _ => {
+                let c = FeCfg { need_reply: false, reply_ack: false, log_shmfd: true };
+                let (mut f, peer) = c01::setup_frontend(c, 256);
+                let pfd = peer.as_raw_fd();
+                let full = spec::msg(spec::fe::GET_INFLIGHT_FD, F_VERSION1 | F_REPLY, &spec::p_inflight(0x1000, 0, 2, 64));
+                let cut = rng.range(1, full.len() as u64 - 1) as usize;
+                let t = std::thread::spawn(move || {
+                    let r = util::catch(|| vhost::vhost_user::VhostUserFrontend::get_inflight_fd(&mut f, &vhost::vhost_user::message::VhostUserInflight { mmap_size: 0, mmap_offset: 0, num_queues: 2, queue_size: 64 }));
+                    match r { Ok(Ok(_)) => "Ok".to_string(), Ok(Err(e)) => format!("{e:?}"), Err(_) => "panic".into() }
+                });
+                // the request is on the wire (and stays unread) before the partial reply is written
+                let arrived = sys::wait_until(10_000, || sys::inq(pfd) > 0);
+                let _ = sys::send_all(pfd, &full[..cut], &fds[..1]);
+                let unread = sys::inq(pfd);
+                drop(peer);
+                let res = t.join().unwrap_or_else(|_| "panic".into());
+                what = format!("frontend: get_inflight_fd answered by {cut}/{} bytes + 1 descriptor, then reset (request arrived {arrived}, {unread} unread bytes): {res}", full.len());
+                if res.contains("ConnectionReset") { report::count("reset.certified_econnreset", 1); }
+            }
+        }
+        report::count("descriptors_sent", nfds as u64);
+        drop(files);
+    }
+    report::distinct(report::hash_str(&format!("reset:{}", what.split(": ").next().unwrap_or("")).as_str()) ^ report::hash_str(&what));
+    judge(cfg, "reset-mid-message", J::S(what.clone()), &before, case, "");
+    report::sample(&format!("reset{endpoint}"), jo! {"scenario" => what});
+}
+
 /// Proxies are lent descriptors (`&dyn AsRawFd`): they must not close them.
 fn proxy_scenario(cfg: &Cfg, rng: &mut Rng, case: &str) {
     let before = sys::fd_census();
@@ -257,7 +323,7 @@ fn proxy_scenario(cfg: &Cfg, rng: &mut Rng, case: &str) {
 
 pub fn run(cfg: &Cfg) {
     report::assume("test descriptors are memfds/eventfds/sockets whose identity is decidable ((st_dev, st_ino) + eventfd-id); the census is taken in a single-threaded process at points where every endpoint has been dropped");
-    let scen: [(&str, fn(&Cfg, &mut Rng, &str)); 4] = [("srv", srv_scenario), ("fesrv", fesrv_scenario), ("fe", fe_scenario), ("proxy", proxy_scenario)];
+    let scen: [(&str, fn(&Cfg, &mut Rng, &str)); 5] = [("srv", srv_scenario), ("fesrv", fesrv_scenario), ("fe", fe_scenario), ("proxy", proxy_scenario), ("reset", reset_scenario)];
     // warm-up: lazily created runtime descriptors must exist before the first baseline
     {
         let mut w = Rng::new(99);
@@ -279,8 +345,7 @@ pub fn run(cfg: &Cfg) {
     let mut rng = Rng::new(cfg.seed.wrapping_mul(0xc09).wrapping_add(cfg.shard.wrapping_mul(15485863)));
     let n = cfg.pick(1500, 20000);
     for i in 0..n {
-        let (name, f) = scen[(i % 8).min(3) as usize % 4];
-        let (name, f) = if i % 8 < 4 { scen[0] } else if i % 8 < 6 { scen[1] } else if i % 8 == 6 { scen[2] } else { (name, f) };
+        let (name, f) = if i % 16 == 15 { scen[4] } else if i % 8 < 4 { scen[0] } else if i % 8 < 6 { scen[1] } else if i % 8 == 6 { scen[2] } else { scen[3] };
         let case = format!("{name}:{}", rng.0);
         f(cfg, &mut rng, &case);
         if report::violations_so_far() > 20 {
